@@ -340,7 +340,7 @@ func genTmpl(t *rapid.T) Tmpl {
 	return Tmpl{Src: src, Partials: progs.PartialText(pr, g.Partials), Prog: model.Encode(prog)}
 }
 
-const rule = "templates: random programs over all constructs (shared generator; some with planted faults so that errors must be deterministic too) spliced with hash literals of 3-5 entries whose values call a recording helper and with duplicate keys; plus (E) the 277 templates harvested from the repository's tests and 9 hash-literal snippets. Histories: 1-3 templates x up to 14 interleaved actions from {Exec again on the parsed template, NewTemplate+Exec, Clone+Exec, Render with the cache off, Render with the cache on and cold (text made unique by a leading comment tag), Render cache-on warm, Parse through the cache then Exec, Exec twice on the cached object}; context data rebuilt fresh-but-equal for every execution. (E) every template x all 8 actions x 2 rounds; (R) random histories. Oracle: every (output, error text with addresses normalised, recorded helper invocation order) equals the first result for that template; the deep structural hash of the parsed program (all fields incl. token lines, pointer topology, H1 accessor) is identical after every Exec. Excluded by construction: for over Go maps / multi-entry hash literals (the licensed variation). Non-trivial = histories of >= 3 actions; distinct by (templates, actions)."
+const rule = "templates: random programs over all constructs (shared generator; some with planted faults so that errors must be deterministic too) spliced with hash literals of 3-5 entries whose values call a recording helper and with duplicate keys; plus (E) the 277 templates harvested from the repository's tests, 9 hash-literal snippets and a partial that includes itself (overlapping executions of one cached template object). Histories: 1-3 templates x up to 14 interleaved actions from {Exec again on the parsed template, NewTemplate+Exec, Clone+Exec, Render with the cache off, Render with the cache on and cold (text made unique by a leading comment tag), Render cache-on warm, Parse through the cache then Exec, Exec twice on the cached object}; context data rebuilt fresh-but-equal for every execution. (E) every template x all 8 actions x 2 rounds; (R) random histories. Oracle: every (output, error text with addresses normalised, recorded helper invocation order) equals the first result for that template; the deep structural hash of the parsed program (all fields incl. token lines, pointer topology, H1 accessor) is identical after every Exec. Excluded by construction: for over Go maps / multi-entry hash literals (the licensed variation). Non-trivial = histories of >= 3 actions; distinct by (templates, actions)."
 
 func setup(t *testing.T) *vk.Run {
 	r := vk.Start(t, "C13", rule,
@@ -395,7 +395,15 @@ func TestProp(t *testing.T) {
 			n++
 		}
 	}
-	r.Subspace("harvested templates and hash snippets x all 8 actions x 2 rounds", n, true)
+	// a partial that includes itself: with the cache on, the nested Render gets the SAME cached *Template as the
+	// execution it is called from, so two executions of one template object overlap
+	self := `<%= n %>(<%= if (n > 0) { %><%= partial("self", {n: n - 1}) %><% } %>)<%= n %>`
+	rec := Tmpl{Src: `[<%= partial("self", {n: i2}) %>|<%= partial("self", {n: i1}) %>]`, Partials: map[string]string{"self": self}}
+	for k := 0; k < 3; k++ {
+		r.Check(runCase(r, Case{Templates: []Tmpl{rec, {Src: self + `<% let n = 1 %>`, Partials: map[string]string{"self": self}}}, Actions: append(append([][2]int{}, all...), [2]int{1, 4}, [2]int{1, 5}, [2]int{0, 5}, [2]int{1, 6})}, "recursive-partial"))
+		n++
+	}
+	r.Subspace("harvested templates, hash snippets and a self-including partial x all 8 actions x 2 rounds", n, true)
 
 	r.Rapid("histories", r.Pick(2500, 30000), func(t *rapid.T) *vk.Fail {
 		nt := rapid.IntRange(1, 3).Draw(t, "ntemplates")
